@@ -20,7 +20,7 @@ RULE = ("Random nested mount tables (depth <=3, 1-4 entries per level, prefixes 
         "of overlapping regex patterns x Host values (exact, prefix, suffix, with port, empty, absent, upper-case). Both interfaces. Non-trivial = "
         "table with >=2 entries of which one prefix is a string prefix of another, or nesting depth >=2, or a 404 outcome; distinct = (table, path, root).")
 ASSUMPTIONS = [
-    "each interface's model is applied to the path string that interface presents (PATH_INFO Latin-1 view on WSGI)",
+    "on WSGI SCRIPT_NAME / PATH_INFO are the Latin-1 view of the bytes; the model is applied to the UTF-8 text they stand for (as on ASGI)",
     "'leaves the request untouched' is judged per mount level: at a 404 the request must equal what the innermost non-matching mount received",
     "the host pattern language is Python's re; selection order and whole-string anchoring are what is checked",
 ]
@@ -99,16 +99,16 @@ def run_mount(ctx, table, root, path):
         if iface == "wsgi":
             def rec(ids):
                 def app(environ, start_response):
-                    hit["leaf"] = (ids, environ.get("SCRIPT_NAME", ""), environ.get("PATH_INFO", ""))
+                    hit["leaf"] = (ids, drivers.wsgi_text(environ.get("SCRIPT_NAME", "")), drivers.wsgi_text(environ.get("PATH_INFO", "")))
                     start_response("200 OK", [])
                     return [b"leaf"]
                 return app
             app = build(wsgi, table, rec)
             env = drivers.to_environ(drivers.Req(path=path.encode("utf-8"), root=root.encode("utf-8")))
-            root_seen, path_seen = env["SCRIPT_NAME"], env["PATH_INFO"]
+            root_seen, path_seen = drivers.wsgi_text(env["SCRIPT_NAME"]), drivers.wsgi_text(env["PATH_INFO"])
             before = snap(env, ("SCRIPT_NAME", "PATH_INFO"))
             res = drivers.run_wsgi(app, env)
-            after_root, after_path = env.get("SCRIPT_NAME", ""), env.get("PATH_INFO", "")
+            after_root, after_path = drivers.wsgi_text(env.get("SCRIPT_NAME", "")), drivers.wsgi_text(env.get("PATH_INFO", ""))
             after = snap(env, ("SCRIPT_NAME", "PATH_INFO"))
             status, exc = res.code, res.exc
         else:
